@@ -505,6 +505,17 @@ def make_objects():
         t._add_data(numpy.arange(9.0).reshape(3, 3) * (1 + 1j), dtype="R1g", tag=1)
         return t
 
+    def f_twod_pathways():
+        # individual Liouville pathways kept (storage resolution "pathways"); .data is the total spectrum
+        from quantarhei.spectroscopy.twod2 import TwoDResponse
+        t = TwoDResponse()
+        t.set_axis_1(qr.FrequencyAxis(0.0, 3, 1.0))
+        t.set_axis_3(qr.FrequencyAxis(0.0, 3, 1.0))
+        t._add_data(numpy.arange(9.0).reshape(3, 3) * (1 + 1j), resolution="pathways", dtype="R1g", tag=1)
+        t._add_data(numpy.arange(9.0)[::-1].reshape(3, 3) * (2 - 1j), resolution="pathways", dtype="R2g", tag=2)
+        t.set_data_flag(qr.signal_TOTL)          # the flag a fresh response carries: .data reads the total
+        return t
+
     def f_twodc():
         t2 = qr.TimeAxis(0.0, 2, 10.0)
         cont = qr.TwoDResponseContainer(t2) if hasattr(qr, "TwoDResponseContainer") else qr.TwoDSpectrumContainer(t2)
@@ -523,7 +534,7 @@ def make_objects():
             ("Molecule", f_mol), ("Mode", f_mode), ("Aggregate", f_agg), ("CorrelationFunction", f_cf), ("SpectralDensity", f_sd),
             ("SystemBathInteraction", f_sbi), ("RedfieldRelaxationTensor", f_rt), ("ReducedDensityMatrixEvolution", f_evol),
             ("EvolutionSuperOperator", f_eso), ("AbsSpectrum", f_abs), ("AbsSpectrumContainer", f_absc),
-            ("TwoDResponse", f_twod), ("TwoDResponseContainer", f_twodc)]
+            ("TwoDResponse", f_twod), ("TwoDResponse(pathways)", f_twod_pathways), ("TwoDResponseContainer", f_twodc)]
 
 
 def observable(o):
